@@ -324,7 +324,9 @@ pub fn histogram_spec(name: &str, avx2: bool) -> Spec {
     let gen = move |tier: Tier, out: &mut dyn FnMut(Case) -> bool| {
         for n in 100..=260u32 {
             for a in few_aligns(tier) {
-                for c in 0..5u8 {
+                // c=5 (coverage audit): one dominant symbol in all bytes but the last, so that a single counter of the
+                // chunked part passes 255 at n >= 257
+                for c in 0..6u8 {
                     if !out(Case { n, a, c, ..Default::default() }) {
                         return;
                     }
@@ -337,7 +339,8 @@ pub fn histogram_spec(name: &str, avx2: bool) -> Spec {
         let bytes: Vec<u8> = match case.c {
             0..=2 => content(case.c, n),
             3 => (0..n).map(|i| b"abracadabra alakazam"[i % 20]).collect(),
-            _ => (0..n).map(|i| if i % 32 == 31 { 0xFF } else { (i % 5) as u8 }).collect(),
+            4 => (0..n).map(|i| if i % 32 == 31 { 0xFF } else { (i % 5) as u8 }).collect(),
+            _ => (0..n).map(|i| if i + 1 == n { 0x01 } else { 0xAA }).collect(),
         };
         let data = place(0, case.a, &bytes);
         let mut cfg = FseConfig::default();
@@ -375,7 +378,7 @@ pub fn histogram_spec(name: &str, avx2: bool) -> Spec {
     };
     Spec {
         name: name.to_string(),
-        space: "histogram (FseEncoder::analyze_frequencies observed through the frequency table of compress()): every length 100..=260 (shorter inputs are stored without a table) x alignment {quick: 0,1,guard-ended; thorough: 16 values} x contents {ascending, >=0x80, embedded NUL, text, 5-symbol + 0xFF every 32nd}; hardware.avx2 forced on/off by configuration; oracle: byte-at-a-time counting".into(),
+        space: "histogram (FseEncoder::analyze_frequencies observed through the frequency table of compress()): every length 100..=260 (shorter inputs are stored without a table) x alignment {quick: 0,1,guard-ended; thorough: 16 values} x contents {ascending, >=0x80, embedded NUL, text, 5-symbol + 0xFF every 32nd, one dominant symbol in every byte but the last (count up to 259; 256 of them inside the 32-byte chunks at n >= 257)}; hardware.avx2 forced on/off by configuration; oracle: byte-at-a-time counting".into(),
         gen: Box::new(gen),
         run: Box::new(run),
         isolate: false,
